@@ -95,11 +95,9 @@ class Lab:
                        dtype=float).reshape(n, 3)
         g = cls(n_atoms=n, coords=xyz, name=name)
         for atom, a in zip(g.atoms, frame):
-            if a["el"] == DUMMY:
-                atom.element = self.Element.Unknown
-                atom.atype = self.AtomType.Dummy
-            else:
-                atom.element = self.Element[a["el"]]
+            atom.element = self.Element.Unknown if a["el"] == DUMMY else self.Element[a["el"]]
+            if a.get("ty", "dummy" if a["el"] == DUMMY else "regular") == "dummy":
+                atom.atype = self.AtomType.Dummy            # dummy TYPE, possibly on a real element
         return g
 
     def build(self, g, name="mbv"):
@@ -142,13 +140,13 @@ class Lab:
     def abstract_obj(self, obj):
         """In-memory object -> {cls, frames} with [u, s] coordinates (public accessors only)."""
         cn = type(obj).__name__
-        els = self._els(obj)
+        els = list(zip(self._els(obj), ["dummy" if a.atype == self.AtomType.Dummy else "regular" for a in obj.atoms]))
         if cn == ENS:
-            frames = [[{"el": e, "x": coord_abs(float(r[0])), "y": coord_abs(float(r[1])), "z": coord_abs(float(r[2]))}
-                       for e, r in zip(els, conf)] for conf in obj.coords]
+            frames = [[{"el": e, "ty": t, "x": coord_abs(float(r[0])), "y": coord_abs(float(r[1])), "z": coord_abs(float(r[2]))}
+                       for (e, t), r in zip(els, conf)] for conf in obj.coords]
         else:
-            frames = [[{"el": e, "x": coord_abs(float(r[0])), "y": coord_abs(float(r[1])), "z": coord_abs(float(r[2]))}
-                       for e, r in zip(els, obj.coords)]]
+            frames = [[{"el": e, "ty": t, "x": coord_abs(float(r[0])), "y": coord_abs(float(r[1])), "z": coord_abs(float(r[2]))}
+                       for (e, t), r in zip(els, obj.coords)]]
         return {"cls": cn, "frames": frames}
 
     def abstract_loaded(self, res_obj, res: int):
